@@ -64,9 +64,9 @@ def acks(cfg):
         for ev in cfg.get('evs', EVS):
             for id in cfg['ids']:
                 A.append(mk('RxEvent', ns=ns, id=id, ev=ev, args=['v1']))
-        for args in ([], ['d1', 'l1'], ['n1', 'z0', 'f1']):
-            A.append(mk('RxEvent', ns=ns, id=cfg['ids'][-1], ev='e_v',
-                        args=args))
+        for args in ([], ['d1', 'l1'], ['n1', 'z0', 'f1'], ['h1', 'es']):
+            for id in cfg['ids'][-2:]:
+                A.append(mk('RxEvent', ns=ns, id=id, ev='e_v', args=args))
         for tag in ('c1', 'c2'):
             A.append(mk('Emit', ns=ns, ev='msg', data='v1', cb=tag))
         for id in cfg['ack_ids']:
@@ -142,6 +142,7 @@ CONFIGS['cacks_fn'] = dict(_AK, hkind='fn')
 CONFIGS['cacks_class'] = dict(_AK, hkind='class')
 CONFIGS['cacks_quick'] = dict(_AK, hkind='fn', ns_h=['/'],
                               connects=[['/', '/a']],
-                              evs=['e_none', 'e_v', 'e_tup2', 'e_bin',
-                                   'e_unh', 'e_raise'], ids=[-1, 7],
+                              evs=['e_none', 'e_v', 'e_z', 'e_el', 'e_h',
+                                   'e_tup2', 'e_bin', 'e_unh', 'e_raise'],
+                              ids=[-1, 0, 7],
                               ack_args=[[], ['v1', 'v2']])
